@@ -6,6 +6,7 @@
 #include <sched.h>
 #include "common.h"
 #include "qlibc.h"
+#include "qinternal.h"
 
 static int T, K; static unsigned seed0; static const char *kind;
 static void *cont; static volatile int failed; static char failmsg[256];
@@ -170,8 +171,33 @@ static int bounded(int T_, int R_, int M) {
     printf("OK bounded\n"); return 0;
 }
 
+/* "nested": an operation called between the user's lock() and unlock() (the documented way to walk or to update while
+   walking) must return with the lock still held by the caller: another thread's trylock on the container's mutex fails. */
+static pthread_mutex_t *probe_mx; static int probe_res;
+static void *probe_thread(void *p) { probe_res = pthread_mutex_trylock(probe_mx); if (probe_res == 0) pthread_mutex_unlock(probe_mx); return NULL; }
+static int still_held(void *qm) {
+    probe_mx = &((qmutex_t *)qm)->mutex; pthread_t th; pthread_create(&th, NULL, probe_thread, NULL); pthread_join(th, NULL);
+    return probe_res != 0;
+}
+static int nested(void) {
+    unsigned long long e = 7; int bad = 0; const char *who = "";
+    qtreetbl_t *t = qtreetbl(QTREETBL_THREADSAFE); qhashtbl_t *h = qhashtbl(0, QHASHTBL_THREADSAFE);
+    qlisttbl_t *l = qlisttbl(QLISTTBL_THREADSAFE); qlist_t *s = qlist(QLIST_THREADSAFE);
+    qvector_t *v = qvector(2, sizeof e, QVECTOR_THREADSAFE);
+    t->lock(t); t->put(t, "a", &e, sizeof e); free(t->get(t, "a", NULL, true)); if (!still_held(t->qmutex)) { bad = 1; who = "tree"; } t->unlock(t);
+    h->lock(h); h->put(h, "a", &e, sizeof e); free(h->get(h, "a", NULL, true)); if (!still_held(h->qmutex) && !bad) { bad = 1; who = "hash"; } h->unlock(h);
+    l->lock(l); l->put(l, "a", &e, sizeof e); free(l->get(l, "a", NULL, true)); if (!still_held(l->qmutex) && !bad) { bad = 1; who = "listtbl"; } l->unlock(l);
+    s->lock(s); s->addlast(s, &e, sizeof e); free(s->getfirst(s, NULL, true)); if (!still_held(s->qmutex) && !bad) { bad = 1; who = "list"; } s->unlock(s);
+    v->lock(v); v->addlast(v, &e); free(v->getfirst(v, true)); if (!still_held(v->qmutex) && !bad) { bad = 1; who = "vector"; } v->unlock(v);
+    /* and after the outer unlock the lock is free again */
+    if (!bad && (still_held(t->qmutex) || still_held(h->qmutex) || still_held(l->qmutex) || still_held(s->qmutex) || still_held(v->qmutex))) { bad = 1; who = "lock still held after the outer unlock"; }
+    if (bad) { printf("FAIL nested call on a locked container (%s): the caller's lock was released by the inner operation\n", who); return 1; }
+    printf("OK nested\n"); return 0;
+}
+
 int main(int argc, char **argv) {
     if (argc > 1 && !strcmp(argv[1], "contend")) return contend();
+    if (argc > 1 && !strcmp(argv[1], "nested")) return nested();
     if (argc > 4 && !strcmp(argv[1], "bounded")) return bounded(atoi(argv[2]), atoi(argv[3]), atoi(argv[4]));
     if (argc > 4 && !strcmp(argv[1], "twotables")) return twotables(atoi(argv[2]), atoi(argv[3]), (unsigned)atoi(argv[4]));
     kind = argv[1]; T = atoi(argv[2]); K = atoi(argv[3]); seed0 = (unsigned)atoi(argv[4]);
